@@ -477,3 +477,17 @@ def kwargs(e: ast.Call) -> Dict[str, ast.expr]:
 
 def calls_in(e: ast.AST, suffix: str) -> List[ast.Call]:
     return [n for n in ast.walk(e) if isinstance(n, ast.Call) and norm_text(n.func).split(".")[-1] == suffix]
+
+
+def canon_test(t: str) -> str:
+    """the text of an atomic condition in one polarity: `x is None` -> `x is not None`, `a != b` -> `a == b`, `a not in b` -> `a in b` (which truth value it had on a path is a separate fact)"""
+    try:
+        e = ast.parse(t, mode="eval").body
+    except SyntaxError:
+        return t
+    if isinstance(e, ast.Compare) and len(e.ops) == 1:
+        flip = {ast.Is: ast.IsNot, ast.NotEq: ast.Eq, ast.NotIn: ast.In}
+        if type(e.ops[0]) in flip:
+            e = ast.Compare(left=e.left, ops=[flip[type(e.ops[0])]()], comparators=e.comparators)
+            return norm_text(e, limit=100000).replace('"', "'")
+    return t
